@@ -19,6 +19,7 @@ func init() {
 			{"VF-SAME-MERGE", ruleVFSameMerge},
 			{"SUB-CID", ruleSubCid},
 			{"CID-PLUMB", ruleCidPlumb},
+			{"VF-NO-INDEX", ruleVFNoIndex},
 			{"ACP-PLUMB", ruleACPPlumb},
 			{"LWW-TABLE", ruleLWWTable},
 			{"COUNTER-MERGE", ruleCounterMerge},
@@ -327,4 +328,43 @@ func ruleCidPlumb(c *eng.Ctx) {
 		c.Check(len(keys) == 1 && keys[0] == want, rule, construct, initF.Decl.Pos(), want+" fetcher",
 			fmt.Sprintf("with cid.HasValue()=%v initFetcher installs %v, required %q", has, keys, want))
 	}
+}
+
+// ruleVFNoIndex: the versioned fetcher rebuilds the document in a transient store that holds no
+// secondary index entries; the document fetcher that reads it back must be initialised without an
+// index, whatever index the planner chose for the (current-state) scan.
+func ruleVFNoIndex(c *eng.Ctx) {
+	const rule = "VF-NO-INDEX"
+	fi := c.Anchor(rule, "internal/db/fetcher.(*VersionedFetcher).Init")
+	if fi == nil {
+		return
+	}
+	info := fi.Pkg.TypesInfo
+	n := 0
+	for _, cs := range eng.Calls(info, fi.Decl.Body) {
+		if !strings.HasSuffix(cs.Name, ".Init") || cs.Callee == fi.Obj {
+			continue
+		}
+		sig, ok := info.TypeOf(cs.Call.Fun).(*types.Signature)
+		if !ok {
+			continue
+		}
+		for i := 0; i < sig.Params().Len() && i < len(cs.Call.Args); i++ {
+			if !strings.Contains(sig.Params().At(i).Type().String(), "IndexDescription") {
+				continue
+			}
+			n++
+			arg := cs.Call.Args[i]
+			isNone := false
+			if call, ok := ast.Unparen(arg).(*ast.CallExpr); ok && strings.Contains(eng.CalleeName(info, call), "immutable.None") {
+				isNone = true
+			}
+			if cl, ok := ast.Unparen(arg).(*ast.CompositeLit); ok && len(cl.Elts) == 0 {
+				isNone = true
+			}
+			c.Check(isNone, rule, "VersionedFetcher.Init:inner-Init:index=none", arg.Pos(), "the transient store is read without a secondary index",
+				"the fetcher that reads the rebuilt document from the transient store is given the index "+eng.ExprStr(arg)+": that store has no index entries, so a time-travel query filtering on the indexed field returns nothing")
+		}
+	}
+	c.Floor(rule, n, 1)
 }
